@@ -1021,6 +1021,7 @@ func (multi *MultiEpoch) processSlotTransactions(
 
 		// Flush after all processing is done
 		klog.V(2).Infof("Starting buffer flush with %d slots of transactions", len(buffer.items))
+		nothingBuffered := len(buffer.items) == 0 // (flush removes the slots it has sent)
 		flushStartTime := time.Now()
 		if err := buffer.flush(ser); err != nil {
 			return err
@@ -1046,7 +1047,7 @@ func (multi *MultiEpoch) processSlotTransactions(
 		klog.V(3).Infof("Error check completed in %s", time.Since(errCheckStartTime))
 
 		// If we got here with no transactions (buffer is empty), send an empty response
-		if len(buffer.items) == 0 {
+		if nothingBuffered {
 			klog.V(2).Infof("No transactions found for the requested accounts, sending empty response")
 			emptyResp := &old_faithful_grpc.TransactionResponse{
 				Slot: startSlot,
